@@ -127,10 +127,9 @@ def decode : Nat → Nat → Bytes → Option (Item × Bytes)
         | none => none
         | some (xs, r') => some (.arr xs, r')
       else if mt = 5 then
-        -- decodeLen doubles the pair count in uint64 arithmetic before the limit check
-        let n2 := (2 * arg) % 18446744073709551616
-        if n2 ≥ maxLen ∨ d = 0 then none else
-        match decodePairs f (d - 1) (n2 / 2) r with
+        -- decodeLen checks the declared pair count, then the doubled count (two items per pair)
+        if arg ≥ maxLen ∨ 2 * arg ≥ maxLen ∨ d = 0 then none else
+        match decodePairs f (d - 1) arg r with
         | none => none
         | some (ps, r') => some (.map ps, r')
       else if mt = 6 then
